@@ -110,6 +110,10 @@ class C11(core.Prop):
         # the same strings handed over as a base graph (MoleculeResolver.from_graph); every third shape
         for s in list(out)[::3]:
             out.append(dict(s, entry='graph'))
+        # history: the same base graph object was resolved before with a fragment set in which the (now) virtual nodes
+        # had a fragment of their own
+        for s in [x for x in list(out) if x['virt'] and not x.get('entry')][1::3]:
+            out.append(dict(s, entry='graph_resolved_before'))
         for s in out:
             s['g'].pop('_where', None)
         return out
@@ -131,13 +135,18 @@ class C11(core.Prop):
         text0, _ = gg.render(shape['base'], rec0)
         defs = DEFS if shape['aa'] else DEFS_CG
         ftext = '{' + ','.join('#%s=%s' % (k, v) for k, v in defs.items()) + '}'
-        return {'text': cat('{', text, '}.', ftext), 'ref': cat('{', text0, '}.', ftext), 'holes': rec}
+        vdefs = cat(*[cat(',#', rec['name'][str(v)], '=', ('[$]N[$][$]' if shape['aa'] else '[$][#Z][$][$]')) for v in shape['virt']])
+        return {'text': cat('{', text, '}.', ftext), 'ref': cat('{', text0, '}.', ftext), 'holes': rec,
+                'full': cat(ftext[:-1], vdefs, '}')}
 
     def execute(self, M, shape, inp):
-        if shape.get('entry') == 'graph':
+        if shape.get('entry') in ('graph', 'graph_resolved_before'):
             def run():
                 base, rest = pl.split_layers(inp['text'])
-                res = M.resolve.MoleculeResolver.from_graph(rest, M.read_cgsmiles.read_cgsmiles(base), last_all_atom=shape['aa'])
+                mg = M.read_cgsmiles.read_cgsmiles(base)
+                if shape['entry'] == 'graph_resolved_before':
+                    core.guard(lambda: M.resolve.MoleculeResolver.from_graph(inp['full'], mg, last_all_atom=shape['aa']).resolve())
+                res = M.resolve.MoleculeResolver.from_graph(rest, mg, last_all_atom=shape['aa'])
                 meta, mol = res.resolve()
                 return {'meta': pl.meta_data(meta), 'mol': pl.graph_data(mol)}
             return [core.guard(run), core.guard(pl.run_resolver, M, inp['ref'], last_all_atom=shape['aa'])]
